@@ -308,6 +308,32 @@ def bigIntraCases (count : Nat) : G (List String) := do
     out := s!"P {optsOf { flavour := fl } false} d:{hexOf p}" :: out
   pure out.reverse
 
+/-- histories that START without a reference picture: disposable (Sorenson) or ordinary predicted pictures made of INTRA
+macroblocks only — they decode without a reference, and a disposable one leaves the decoder without a reference — followed by
+pictures that need prediction (rejected while there is no reference), an I picture and further predicted pictures -/
+def genNoRefCase : G String := do
+  let cfg ← genCfg
+  let w ← range 1 3
+  let h ← range 1 2
+  let dims := if cfg.flavour = 2 then (128, 96) else (w * 16, h * 16)
+  let tr ← below 250
+  let allIntra (pt k : Nat) : G PicD := do
+    let p ← genPic cfg pt dims (tr + k) true
+    let mbs ← p.mbs.mapM fun _ => genMb cfg true
+    let hdr := match p.hdr with
+      | .plus hh => HdrD.plus { hh with ufep := true }
+      | x => x
+    pure { hdr := hdr, mbs := mbs }
+  let dispo := if cfg.flavour < 2 then 2 else 1
+  let n0 ← range 1 2
+  let first ← (List.range n0).mapM fun k => allIntra dispo k
+  let p1 ← genPic cfg 1 dims (tr + 2) true
+  let i ← genPic cfg 0 dims (tr + 3) true
+  let p2 ← genPic cfg (← pick [1, dispo]) dims (tr + 4) true
+  let p3 ← genPic cfg 1 dims (tr + 5) true
+  let pics := first ++ [p1, i, p2, p3]
+  pure (s!"P {optsOf cfg false} " ++ ";".intercalate (pics.map fun p => s!"r:{hexOf p}"))
+
 def runGen (kind : String) (seed count : Nat) : List String :=
   if kind == "leak" then ((leakCases count).run (seed * 2654435761 + 55)).1 else
   if kind == "bigintra" then ((bigIntraCases count).run (seed * 2654435761 + 56)).1 else
@@ -327,6 +353,7 @@ def runGen (kind : String) (seed count : Nat) : List String :=
       | "inter" => out := (← genInterCase) :: out
       | "realsize" => out := (← genRealSizeCase) :: out
       | "hist" => out := (← genHistCase) :: out
+      | "noref" => out := (← genNoRefCase) :: out
       | "concat" => out := (← genConcatCase).reverse ++ out
       | _ => pure ()
     pure out.reverse
